@@ -646,6 +646,9 @@ theorem customBuildStep_spec {ev flat m srcdir sources combined cb} {ls ls' : Lo
       ls' = { ls with files := ls.files.extend m.name [outsAlias outs],
                       entries := addEntries ls.entries (customStmts cb cmd srcs outs combined) } := by
   unfold customBuildStep at h
+  split at h
+  · cases h
+  unfold customBuildStepCore at h
   simp only [bind, Except.bind, pure, Except.pure] at h
   split at h
   · cases h
